@@ -69,7 +69,7 @@ class Ctx:
     # ---------------------------------------------------------------- TLC
     def tlc(self, module, cfg, workers=None, timeout=600, simulate=None, depth=None,
             extra=None, copy=None, deque=False, defines=None, heap=None, check_deadlock=None,
-            allow_violation=False):
+            allow_violation=False, allow_rejected=False):
         """Run TLC on spec/<module>.tla with spec/<cfg> in a scratch copy of /verif/spec.
         Returns dict(states, distinct, ok, violated, out, lines).  Raises Inconclusive on tool failure."""
         wd = self.path("tlc-%s-%d" % (cfg.replace("/", "_"), len(os.listdir(self.scratch))), "x")
@@ -121,6 +121,10 @@ class Ctx:
         res["lines"] = out.splitlines()
         if p.returncode == 124 and not simulate:
             raise Inconclusive("TLC timeout on %s/%s" % (module, cfg))
+        # trace validation: a false POSTCONDITION means the trace was not accepted (res["rejected"])
+        res["rejected"] = bool(re.search(r"Postcondition \w+ .*is false", out))
+        if res["rejected"] and allow_rejected:
+            return res
         if not res["ok"] and not (res["violated"] and allow_violation):
             errs = [i for i, ln in enumerate(res["lines"]) if ln.startswith("Error:") or "Exception" in ln]
             first = "\n".join(res["lines"][errs[0]:errs[0] + 25]) if errs else ""
